@@ -5,7 +5,9 @@ package c20
 // Harness A (deciding): the real preconfirmed.ChainStorage driven through its exported API by EVERY writer
 // sequence up to a depth over the alphabet of DESIGN §4 C20, with readers everywhere (see `rule` in TestCheck).
 // Harness B (poller_test.go): the real Poller goroutine with a scripted sequencer on a real Blockchain whose head
-// is stored/reverted between and inside ticks.  Secondary: free-running goroutines (race_test.go).
+// is stored/reverted between and inside ticks.  Harness C (ordered_test.go): ordered effects on one address.
+// Harness D (readers_test.go): ordered sequences of reader programs (open, sweep, close) on one process over views
+// whose blocks carry every state-diff section.  Secondary: free-running goroutines (race_test.go).
 
 import (
 	"fmt"
@@ -547,6 +549,10 @@ func TestCheck(t *testing.T) {
 	chk := &checker{r: r, canons: canons, tallest: canons[4]}
 	classesBefore := classPoolDigest()
 
+	// harness D first: it is cheap (seconds) and has its own cap, so it is not starved when a loaded machine lets
+	// the explorers below use up the whole budget
+	readersHarness(r, canons)
+
 	depth := ev.Pick(r, 4, 5)
 	full := alphaCfg{ids: 3, counts: 3, maxTx: 4}
 	completed := 0
@@ -619,6 +625,10 @@ func TestCheck(t *testing.T) {
 	r.Set("view_evaluations_memoised", chk.evalMemo.Load())
 	r.Set("state_reads", chk.stateReads.Load()+chk2.stateReads.Load())
 	r.Set("lookups", chk.lookups.Load()+chk2.lookups.Load())
+	r.Set("v2_hash_of_class_declared_above_the_base_visible_in_base", chk.v2FutureClassVisible.Load()+chk2.v2FutureClassVisible.Load())
+	if chk.v2FutureClassVisible.Load() > 0 {
+		r.Outcome("observed (not demanded): canonical history reader answers CompiledClassHashV2 for a class declared above the requested block")
+	}
 	r.Set("overlay_states_opened", chk.statesOpened.Load())
 	r.Set("overlay_states_refused_no_base", chk.statesRefused.Load())
 	r.Set("canonical_variants", int64(len(canons)*2))
@@ -632,7 +642,7 @@ func TestCheck(t *testing.T) {
 		"and each view is read under %d canonical chains (real Blockchain, both backends; straight, after RevertHead, fork re-stored after revert, base missing). "+
 		"Immutability is measured, not assumed: deep canonical hash (reflect, unexported fields) of every chain ever published on the path is recomputed after every batch of sibling operations; culprit found by clean replay. "+
 		"Functions of view content alone (lookups, overlay reads vs dictionary model, entry vs wire) are memoised per deep content hash (purity re-checked by hashing after the reads) and cross-validated unmemoised to depth %d. "+
-		"non-trivial = distinct non-empty view contents fully evaluated. C (ordered_test.go): see C_rule", depth, len(canons)*2, x2.depth))
+		"non-trivial = distinct non-empty view contents fully evaluated. C (ordered_test.go): see C_rule. D (readers_test.go, ordered sequences of reader programs on one process): see D_rule", depth, len(canons)*2, x2.depth))
 	pprof.StopCPUProfile()
 	r.Assume = append(r.Assume,
 		"operation-granularity atomicity: the only shared mutable word of ChainStorage is the atomic pointer (layout asserted by reflection); immutability of everything behind it is checked by deep hashing",
